@@ -656,3 +656,279 @@ func c12EnumNames(c *Ctx) {
 	r.Counts["enum_name_tables"] = n
 	r.Min("C12.enumnames", 20)
 }
+
+// c09AudKind: validateAudienceClaim lets a present 'aud' value through only when
+// it is a string or a list — every path to a success return passes val == nil,
+// or a successful type test for *Value_StringValue or *Value_ListValue. The
+// validator's audience loop relies on it: Audiences() of any other kind (null,
+// number, bool, struct) is an empty list, for which the loop finds no mismatch.
+func c09AudKind(c *Ctx) {
+	p, r := c.P, c.R
+	rule := "C09.audkind"
+	f := p.PkgFunc("jwt", "validateAudienceClaim")
+	if f == nil || len(f.Params) != 1 {
+		r.AnchorMissing(rule, "jwt.validateAudienceClaim")
+		return
+	}
+	kindOK := func(fs []guard.Fact) bool {
+		for _, fct := range fs {
+			if op, x, y, isC := guard.Cmp(fct); isC && op == token.EQL {
+				if (guard.IsNilConst(y) && guard.Strip(x) == ssa.Value(f.Params[0])) || (guard.IsNilConst(x) && guard.Strip(y) == ssa.Value(f.Params[0])) {
+					return true
+				}
+			}
+			ex, isEx := fct.Cond.(*ssa.Extract)
+			if !isEx || !fct.True || ex.Index != 1 {
+				continue
+			}
+			ta, isTA := ex.Tuple.(*ssa.TypeAssert)
+			if !isTA {
+				continue
+			}
+			tn := ta.AssertedType.String()
+			if strings.HasSuffix(tn, "structpb.Value_StringValue") || strings.HasSuffix(tn, "structpb.Value_ListValue") {
+				return true
+			}
+		}
+		return false
+	}
+	bad := ""
+	n := 0
+	for _, ret := range guard.SuccessReturns(f) {
+		n++
+		if !everyPathHas(ret.Block(), kindOK) {
+			bad = p.Pos(ret.Pos())
+		}
+	}
+	r.Check(bad == "" && n > 0, rule, rule+"/validateAudienceClaim", p.FuncPos(f),
+		"an 'aud' claim that is neither a string nor a list can pass validation (success return at "+bad+"): Audiences() is then empty and the validator's audience loop accepts any expected audience",
+		"every path to success: val == nil, or kind is string, or kind is list")
+	r.Min(rule, 1)
+}
+
+// c14RSACarry: the JWT layer builds the RSA signature key it delegates to from the
+// JWT key's own parameters. The RSA strength checks (modulus size, exponent) run
+// on the delegated key, so they judge the JWT key only if its modulus size and
+// public exponent are carried over — each such field/argument is the result of the
+// JWT parameters' getter of that name, never a constant.
+func c14RSACarry(c *Ctx) {
+	p, r := c.P, c.R
+	rule := "C14.rsacarry"
+	getterOf := func(v ssa.Value, names ...string) bool {
+		call, _ := guard.CallOf(v)
+		if call == nil {
+			return false
+		}
+		var m string
+		if call.Call.IsInvoke() {
+			m = call.Call.Method.Name()
+		} else if cal := call.Call.StaticCallee(); cal != nil && cal.Signature.Recv() != nil {
+			m = cal.Name()
+		}
+		for _, n := range names {
+			if m == n {
+				return true
+			}
+		}
+		return false
+	}
+	n := 0
+	for _, f := range pkgFuncs(p, "jwt") {
+		allInstrs(f, func(ins ssa.Instruction) {
+			if base, fld, val, isS := guard.StoreField(ins); isS && strings.HasSuffix(core.TypeID(base.Type()), ".ParametersValues") {
+				switch fld {
+				case "PublicExponent":
+					n++
+					r.Check(getterOf(val, "PublicExponent"), rule, fmt.Sprintf("%s/%s/PublicExponent", rule, core.FuncID(f)), p.Pos(ins.Pos()),
+						"the delegated RSA key's public exponent is not the JWT key's PublicExponent(): the exponent check then judges another value", "= jwtParams.PublicExponent()")
+				case "ModulusSizeBits":
+					n++
+					r.Check(getterOf(val, "ModulusSizeInBits", "ModulusSizeBits"), rule, fmt.Sprintf("%s/%s/ModulusSizeBits", rule, core.FuncID(f)), p.Pos(ins.Pos()),
+						"the delegated RSA key's modulus size is not the JWT key's ModulusSizeInBits()", "= jwtParams.ModulusSizeInBits()")
+				}
+			}
+			call, ok := ins.(*ssa.Call)
+			if !ok {
+				return
+			}
+			callee := call.Call.StaticCallee()
+			if callee == nil || callee.Name() != "NewParameters" || core.Rel(core.PkgOf(callee)) != "signature/rsassapkcs1" {
+				return
+			}
+			for i, prm := range callee.Params {
+				if i >= len(call.Call.Args) {
+					continue
+				}
+				low := strings.ToLower(prm.Name())
+				switch {
+				case strings.Contains(low, "exponent"):
+					n++
+					r.Check(getterOf(call.Call.Args[i], "PublicExponent"), rule, fmt.Sprintf("%s/%s/NewParameters exponent", rule, core.FuncID(f)), p.Pos(ins.Pos()),
+						"the delegated RSA key's public exponent is not the JWT key's PublicExponent(): the exponent check then judges another value", "= jwtParams.PublicExponent()")
+				case strings.Contains(low, "modulus"):
+					n++
+					r.Check(getterOf(call.Call.Args[i], "ModulusSizeInBits", "ModulusSizeBits"), rule, fmt.Sprintf("%s/%s/NewParameters modulus", rule, core.FuncID(f)), p.Pos(ins.Pos()),
+						"the delegated RSA key's modulus size is not the JWT key's ModulusSizeInBits()", "= jwtParams.ModulusSizeInBits()")
+				}
+			}
+		})
+	}
+	r.Counts["rsa_carry_sites"] = n
+	r.Min(rule, 4)
+}
+
+// c17ReadSize: a key deriver reads from the PRF stream exactly the number of bytes
+// the key constructor it feeds will insist on — the size expression of the buffer
+// handed to io.ReadFull (a constant, or a getter of the parameters) is the one the
+// constructor compares the key length with. Reading by another getter of the same
+// parameters (derived-key size instead of key size) makes derivation fail, or
+// succeed with the wrong amount of key material, for parameter sets where the two
+// differ.
+func c17ReadSize(c *Ctx) {
+	p, r := c.P, c.R
+	rule := "C17.readsize"
+	// size descriptor of an integer value: "const:N" or "getter:Name"
+	var desc func(v ssa.Value, depth int) string
+	desc = func(v ssa.Value, depth int) string {
+		if depth > 4 {
+			return ""
+		}
+		if k, ok := guard.ConstInt(v); ok {
+			return fmt.Sprintf("const:%d", k)
+		}
+		switch x := v.(type) {
+		case *ssa.Convert:
+			return desc(x.X, depth+1)
+		case *ssa.ChangeType:
+			return desc(x.X, depth+1)
+		case *ssa.Call:
+			if cal := x.Call.StaticCallee(); cal != nil && cal.Signature.Recv() != nil && len(x.Call.Args) == 1 && strings.HasSuffix(core.TypeID(cal.Signature.Recv().Type()), ".Parameters") {
+				return "getter:" + cal.Name()
+			}
+		}
+		return ""
+	}
+	n := 0
+	for _, f := range pkgFuncs(p, "keyderivation/internal/keyderivers") {
+		for _, cl := range withClosures(f) {
+			if cl == f || cl.Blocks == nil {
+				continue
+			}
+			// readSizeOf: the size descriptor of the buffer an io.ReadFull in g fills; for a
+			// helper of the package the descriptor of its size parameter is taken at the call
+			bufDesc := func(bufV ssa.Value, d func(ssa.Value) string) string {
+				switch b := guard.Strip(bufV).(type) {
+				case *ssa.MakeSlice:
+					return d(b.Len)
+				case *ssa.Slice:
+					if al, isAl := b.X.(*ssa.Alloc); isAl && b.Low == nil && b.High == nil {
+						if at, isArr := al.Type().Underlying().(*types.Pointer).Elem().Underlying().(*types.Array); isArr {
+							return fmt.Sprintf("const:%d", at.Len())
+						}
+					}
+				}
+				return ""
+			}
+			allInstrs(cl, func(ins ssa.Instruction) {
+				call, ok := ins.(*ssa.Call)
+				if !ok {
+					return
+				}
+				var buf ssa.Value
+				read := ""
+				if n := guard.CalleeName(&call.Call); (n == "io.ReadFull" && len(call.Call.Args) == 2) || (n == "io.ReadAtLeast" && len(call.Call.Args) == 3) {
+					buf = guard.Strip(call.Call.Args[1])
+					read = bufDesc(buf, func(v ssa.Value) string { return desc(v, 0) })
+				} else if h := call.Call.StaticCallee(); h != nil && h.Blocks != nil && h.Pkg == cl.Pkg && h != cl {
+					// readKeyMaterial(reader, size, token): the helper reads make([]byte, size)
+					allInstrs(h, func(hi ssa.Instruction) {
+						hc, isHC := hi.(*ssa.Call)
+						if !isHC || !(guard.CalleeName(&hc.Call) == "io.ReadFull" || guard.CalleeName(&hc.Call) == "io.ReadAtLeast") || len(hc.Call.Args) < 2 {
+							return
+						}
+						d := bufDesc(hc.Call.Args[1], func(v ssa.Value) string {
+							for v2 := v; ; {
+								if cv, isCv := v2.(*ssa.Convert); isCv {
+									v2 = cv.X
+									continue
+								}
+								if prm, isP := v2.(*ssa.Parameter); isP {
+									for i, q := range h.Params {
+										if q == prm && i < len(call.Call.Args) {
+											return desc(call.Call.Args[i], 0)
+										}
+									}
+								}
+								break
+							}
+							return desc(v, 0)
+						})
+						if d != "" {
+							read = d
+							buf = call
+						}
+					})
+				}
+				if read == "" {
+					return
+				}
+				// the constructor the buffer (wrapped as secretdata.Bytes) is handed to
+				var ctor *ssa.Function
+				allInstrs(cl, func(i2 ssa.Instruction) {
+					c2, isC := i2.(*ssa.Call)
+					if !isC {
+						return
+					}
+					cal := c2.Call.StaticCallee()
+					if cal == nil || cal.Blocks == nil || !strings.HasPrefix(cal.Name(), "New") || core.Rel(core.PkgOf(cal)) == "secretdata" || !strings.HasPrefix(core.PkgOf(cal), core.ModPath) {
+						return
+					}
+					for _, a := range c2.Call.Args {
+						if derivesFrom(a, buf, 0) {
+							ctor = cal
+						}
+					}
+				})
+				if ctor == nil {
+					return
+				}
+				// what the constructor compares the key length with
+				want := ""
+				allInstrs(ctor, func(i3 ssa.Instruction) {
+					bo, isB := i3.(*ssa.BinOp)
+					if !isB || (bo.Op != token.EQL && bo.Op != token.NEQ) {
+						return
+					}
+					for _, pr := range [][2]ssa.Value{{bo.X, bo.Y}, {bo.Y, bo.X}} {
+						lc, _ := guard.CallOf(pr[0])
+						if lc == nil {
+							continue
+						}
+						isLen := false
+						if b, isBI := lc.Call.Value.(*ssa.Builtin); isBI && b.Name() == "len" {
+							isLen = true
+						} else if guard.CalleeName(&lc.Call) == "("+core.ModPath+"/secretdata.Bytes).Len" {
+							isLen = true
+						}
+						if !isLen {
+							continue
+						}
+						if d := desc(pr[1], 0); d != "" && want == "" {
+							want = d
+						}
+					}
+				})
+				if want == "" {
+					return
+				}
+				n++
+				key := fmt.Sprintf("%s/%s -> %s.%s", rule, core.FuncID(cl), core.Rel(core.PkgOf(ctor)), ctor.Name())
+				r.Check(read == want, rule, key, p.Pos(ins.Pos()),
+					fmt.Sprintf("the deriver reads %s bytes from the PRF stream but %s requires a key of %s bytes", read, ctor.Name(), want),
+					"read size = "+want+" = the length the key constructor requires")
+			})
+		}
+	}
+	r.Counts["deriver_read_sizes"] = n
+	r.Min(rule, 4)
+}
